@@ -126,8 +126,9 @@ Section Rel.
     Lemma field_tokens_rel f1 f2 :
       fi_rel R f1 f2 -> res_rel R (field_tokens s1 f1) (field_tokens s2 f2).
     Proof.
-      intros (Hp & _ & Hb). unfold field_tokens. eapply bind_rel; [apply tp_tokens_rel; eassumption|].
-      intros t t' Ht. rewrite Hb. destruct (fi_boxed f2); cbn [res_rel]; rtok.
+      intros (Hp & Hc & Hb). unfold field_tokens. eapply bind_rel; [apply tp_tokens_rel; eassumption|].
+      intros t t' Ht. unfold fi_emit_boxed. rewrite Hb, Hc.
+      destruct (fi_boxed f2 && negb (fi_compact f2)); cbn [res_rel]; rtok.
     Qed.
 
     Lemma compact_attr_of_rel c f1 f2 : fi_rel R f1 f2 -> compact_attr_of c f1 = compact_attr_of c f2.
